@@ -7,7 +7,7 @@
 //
 // argv: --dir D --scheme index|date|datetime --limit N(0=off) --backups N(-1=unlimited) --overwrite 0|1 --mode a|w
 //       --remove-old 0|1 --freq none|min|hour|daily --interval N --daily HH:MM --tz gmt|local --start <epoch secs>
-//       --depth N --plant 0|1 --alphabet c14|c15 [--replay "ops"]
+//       --depth N --plant 0|1 --aux 0|1 --name app.log|app|app.v1.log --alphabet c14|c15 [--replay "ops"]
 #include "quill/core/QuillError.h"
 #include "quill/sinks/RotatingFileSink.h"
 
@@ -293,7 +293,8 @@ struct DFile
   bool damaged{false};
 };
 
-static std::string const STEM = "app";
+static std::string STEM = "app"; // --name app.log (default) | app (no extension) | app.v1.log (dotted stem)
+static std::string EXT = ".log";
 
 static std::vector<DFile> scan_dir(std::string const& dir, std::map<int, int> const& sizes)
 {
@@ -362,7 +363,7 @@ static std::string ref_name(RFile const& f, std::string const& stem = STEM)
   std::string n = stem;
   if (!f.date.empty()) n += "." + f.date;
   if (f.index > 0) n += "." + std::to_string(f.index);
-  return n + ".log";
+  return n + EXT;
 }
 
 // ---------------------------------------------------------------------------------------------
@@ -394,7 +395,7 @@ static bool compare(Ref const& ref, std::vector<DFile> const& files, std::string
   std::map<std::string, std::vector<int>> want;
   for (auto const& f : ref.rotated) want[ref_name(f, ref.stem)] = f.ids;
   for (auto const& f : ref.untracked) want[ref_name(f, ref.stem)] = f.ids;
-  want[ref.stem + ".log"] = ref.active_ids;
+  want[ref.stem + EXT] = ref.active_ids;
   std::map<std::string, std::vector<int>> got;
   for (auto const& f : files)
   {
@@ -406,7 +407,7 @@ static bool compare(Ref const& ref, std::vector<DFile> const& files, std::string
     bool epoch = false;
     for (int id : f.ids)
       if (ref.epoch_ids.count(id)) epoch = true;
-    if (epoch || f.name == ref.stem + ".log") got[f.name] = f.ids;
+    if (epoch || f.name == ref.stem + EXT) got[f.name] = f.ids;
   }
   // leftovers of a previous epoch inside a predicted file are a violation too (ids must match exactly)
   for (auto const& kv : want)
@@ -449,6 +450,7 @@ static Outcome run_history(Cfg const& c, std::vector<Op> const& h, bool count)
   for (int v = 0; v < 3; ++v)
   {
     ref[v].c = &c;
+    ref[v].stem = STEM;
     ref[v].variant = v;
     ref[v].start(now, c.mode, true);
   }
@@ -504,7 +506,7 @@ static Outcome run_history(Cfg const& c, std::vector<Op> const& h, bool count)
     refx.start(now, 'a', true);
     try
     {
-      aux = std::make_unique<RotatingFileSink>(fs::path{c.dir + "/" + STEM + ".aux.log"}, make_cfg('a'), FileEventNotifier{}, tp(now));
+      aux = std::make_unique<RotatingFileSink>(fs::path{c.dir + "/" + STEM + ".aux" + EXT}, make_cfg('a'), FileEventNotifier{}, tp(now));
       for (int k = 0; k < 3; ++k) aux_write(313);
     }
     catch (std::exception const& e)
@@ -520,7 +522,7 @@ static Outcome run_history(Cfg const& c, std::vector<Op> const& h, bool count)
   std::unique_ptr<RotatingFileSink> sink;
   try
   {
-    sink = std::make_unique<RotatingFileSink>(fs::path{c.dir + "/" + STEM + ".log"}, make_cfg(c.mode), FileEventNotifier{}, tp(now));
+    sink = std::make_unique<RotatingFileSink>(fs::path{c.dir + "/" + STEM + EXT}, make_cfg(c.mode), FileEventNotifier{}, tp(now));
   }
   catch (std::exception const& e)
   {
@@ -558,7 +560,7 @@ static Outcome run_history(Cfg const& c, std::vector<Op> const& h, bool count)
       {
         sink.reset();
         for (int v = 0; v < 3; ++v) ref[v].start(now, o.rmode, false);
-        sink = std::make_unique<RotatingFileSink>(fs::path{c.dir + "/" + STEM + ".log"}, make_cfg(o.rmode), FileEventNotifier{}, tp(now));
+        sink = std::make_unique<RotatingFileSink>(fs::path{c.dir + "/" + STEM + EXT}, make_cfg(o.rmode), FileEventNotifier{}, tp(now));
       }
     }
     catch (std::exception const& e)
@@ -665,6 +667,16 @@ int main(int argc, char** argv)
   c.start = static_cast<time_t>(a.geti("--start", 1718451898));
   c.plant = a.geti("--plant", 0) != 0;
   c.aux = a.geti("--aux", 0) != 0;
+  std::string const fname = a.get("--name", "app.log");
+  if (fname == "app")
+    EXT = "";
+  else if (fname == "app.v1.log")
+    STEM = "app.v1";
+  else if (fname != "app.log")
+  {
+    vf::J("error").s("msg", "unknown --name").emit();
+    return 2;
+  }
   int const depth = static_cast<int>(a.geti("--depth", 4));
   std::string const alphabet = a.get("--alphabet", "c14");
   if (char const* z = a.get("--zone"))
@@ -679,7 +691,7 @@ int main(int argc, char** argv)
     return "scheme=" + c.scheme + " limit=" + std::to_string(c.limit) + " backups=" + std::to_string(c.backups) +
       " overwrite=" + std::to_string(c.overwrite) + " mode=" + std::string(1, c.mode) + " remove_old=" + std::to_string(c.remove_old) +
       " freq=" + c.freq + " interval=" + std::to_string(c.interval) + " daily=" + c.daily + " tz=" + (c.gmt ? "gmt" : "local") +
-      (a.get("--zone") ? std::string("(") + a.get("--zone") + ")" : "") + " start=" + std::to_string(c.start) + " plant=" + std::to_string(c.plant) + (c.aux ? " aux=1" : "");
+      (a.get("--zone") ? std::string("(") + a.get("--zone") + ")" : "") + " start=" + std::to_string(c.start) + " plant=" + std::to_string(c.plant) + (c.aux ? " aux=1" : "") + (fname != "app.log" ? " name=" + fname : "");
   };
 
   auto emit_viol = [&](std::vector<Op> const& h, Outcome const& o, bool attributed_planted = false)
